@@ -25,8 +25,23 @@
       satisfies [WF2], so all other theorems proved from [WF2] continue to hold after a wrap
       ([C13_after_wrap]).
     Out of scope: overflow of the pointee's own reference counter, allocation failure, and the
-    [unwind] of user panics (C18).  "Does not hang" is C08/C09. *)
-From ASModel Require Import Base State Orderings_gen Step Run Progress Hist Inv InvTl InvProto InvStep.
+    [unwind] of user panics (C18).  "Does not hang" is C08/C09. 
+    "AFTER SUCH A WRAP-AROUND ALL OTHER GUARANTEES CONTINUE TO HOLD" ([ASModel.Wrp*], all schedules): the
+    master invariant is re-proved WITHOUT the bound on the generation counters: generation uniqueness
+    is stated with a modular age ([GUW]: the owner's counter is at most B ahead, modulo 2^64, of every
+    word a helper holds, where B grows by 4 per step), so it survives the wrap as long as the run has
+    fewer than 2^62 steps; the [set_generation] hook is allowed as the FIRST command of a thread (any
+    value - this is how a thread "has already performed 2^62 fallback loads").  For every run within
+    [RunOKW]: no use after free ([C13_wrap_no_use_after_free]), exact accounting
+    ([C13_wrap_accounting]), linearizable loads ([C13_wrap_load_linearizable]) - through the wrap, the
+    cooldown of the node it triggers and the re-claim.  [C13_wrap_scope_inhabited]: a checked 112-step
+    run in which a thread presets its counter to 2^64 - 8, wraps in its second fallback load, is helped
+    by a writer on the wrapped generation, gives its node up and re-claims one.
+*)
+From ASModel Require Import Base State Orderings_gen Step Run Progress Hist Inv InvTl InvProto InvStep Sum StepCases.
+From ASModel Require Import GenDefs Gen1 Gen2 Gen EnvDefs Env4 Env AccDefs Acc1 Acc2 Acc3 Acc4 Acc5 Acc6 Acc7 Acc.
+From ASModel Require Import ProtDefs Prot1 Prot11 Prot16 Prot Typed LinDefs Lin2 Lin Safe1 Safe2 Safe7 Safe8 Safe Main RunOKEx.
+From ASModel Require Import WrpDefs WrpGen WrpEnv WrpMain WrpLin WrpEx WrpC03.
 
 Theorem C13_total :
   forall cf inits progs sched te e,
@@ -114,6 +129,37 @@ Example C13_wrap_example :
   /\ tl_gen (t_loc (thr (fst (run ex_cf ex_s0 ex_sched)) 0)) = 4.
 Proof. vm_compute. repeat split; reflexivity. Qed.
 
+Theorem C13_wrap_no_use_after_free : forall cf inits progs sched,
+  RunOKW cf inits progs sched ->
+  NoFault (run_state cf (init_state inits progs) sched) /\
+  forall te, In te (snd (run cf (init_state inits progs) sched)) ->
+    forall a, ~ In (EvFault (FDeadInc a)) (snd te) /\ ~ In (EvFault (FDeadDec a)) (snd te).
+Proof. exact C01_no_use_after_free_wrap. Qed.
+
+Theorem C13_wrap_accounting : forall cf inits progs sched,
+  RunOKW cf inits progs sched -> Acc (run_state cf (init_state inits progs) sched).
+Proof. exact C02_accounting_wrap. Qed.
+
+Theorem C13_wrap_load_linearizable : forall cf inits progs sched, RunOKW cf inits progs sched ->
+  forall t i cm c h pa pb xa tb xb,
+  let s0 := init_state inits progs in
+  nth_error (t_prog (thr s0 t)) (N.to_nat i) = Some cm -> is_load_of cm c h ->
+  (pa <= pb)%nat ->
+  nth_error sched pa = Some (t, xa) ->
+  t_status (thr (St cf s0 sched pa) t) = Running -> t_stack (thr (St cf s0 sched pa) t) = [] ->
+  t_cmdi (thr (St cf s0 sched pa) t) = i ->
+  nth_error sched pb = Some (tb, xb) ->
+  t_cmdi (thr (St cf s0 sched pb) t) = i -> t_cmdi (thr (St cf s0 sched (S pb)) t) = i + 1 ->
+  exists v, (match cm with
+             | CLoad _ _ => exists d, hnd (St cf s0 sched (S pb)) h = HGuard v d
+             | _ => hnd (St cf s0 sched (S pb)) h = HOwned v
+             end) /\
+    exists k, (pa + 1 <= k <= pb + 1)%nat /\ mem (sh (St cf s0 sched k)) (LStore c) = v.
+Proof. intros cf inits progs sched R. exact (C03_load_linearizable_wrap cf inits progs sched R). Qed.
+
+Theorem C13_wrap_scope_inhabited : RunOKW wx_cf wx_inits wx_progs wx_sched.
+Proof. exact RunOKW_example. Qed.
+
 Print Assumptions C13_total.
 Print Assumptions C13_after_wrap.
 Print Assumptions C13_own_step.
@@ -123,3 +169,7 @@ Print Assumptions C13_interference_free.
 Print Assumptions C13_inuse_transitions.
 Print Assumptions C13_tables.
 Print Assumptions C13_wrap_example.
+Print Assumptions C13_wrap_no_use_after_free.
+Print Assumptions C13_wrap_accounting.
+Print Assumptions C13_wrap_load_linearizable.
+Print Assumptions C13_wrap_scope_inhabited.
